@@ -768,3 +768,24 @@ package core
 //@   property C01
 //@   requires pathPre(core)
 //@   modifies nothing
+
+// ---------------------------------------------------------------------------
+// The recursion check before expansion (C10, C01): findPaste walks ONE macro body; it terminates because a directive tree
+// has finite height (treeHeight: abstract measure; its axiom - a child is lower than its parent - is the statement that
+// the trees built by the scanning phase are acyclic, assumed). A variant that follows PASTEs into other macros has no
+// such measure: the paste depth bound of the expansion is what rejects cycles it is not part of.
+//@ opaque fn treeHeight(d int) int
+//@ pred childrenNonNil() := forallp(x, j, at((*directive.Directive)(x).Children, j), imp(x != 0 && (*directive.Directive)(x).Children.off <= j
+//@     && j < (*directive.Directive)(x).Children.off + len((*directive.Directive)(x).Children), at((*directive.Directive)(x).Children, j) != nil))
+//@ func findPaste(macroName, d)
+//@   property C10
+//@   attr assumesafe
+//@   requires d != nil && childrenNonNil()
+//@   axiom forallp(x, treeHeight(x), treeHeight(x) >= 0)
+//@   axiom forallp(x, j, at((*directive.Directive)(x).Children, j), imp(x != 0 && (*directive.Directive)(x).Children.off <= j
+//@       && j < (*directive.Directive)(x).Children.off + len((*directive.Directive)(x).Children) && at((*directive.Directive)(x).Children, j) != nil,
+//@       treeHeight(at((*directive.Directive)(x).Children, j)) < treeHeight(x)))
+//@   decreases[C10,C01] treeHeight(d)
+//@   modifies nothing
+//@   ensures[C10,@self-paste-rejected] imp(old(d.type_ == directive.Paste && d.namedParameters != nil && has(d.namedParameters, "Name")
+//@       && d.namedParameters["Name"] != "" && d.namedParameters["Name"] == macroName), result != nil)
